@@ -77,6 +77,10 @@ func Silence() {
 	for _, l := range allLoggers {
 		l.SetHandler(log15.DiscardHandler())
 	}
+	if os.Getenv("VERIF_DEBUG_LOG") != "" {
+		// debugging aid for replays: errors of the protocol layer (chain bridge) to the child log
+		common.ProtocolLogger.SetHandler(log15.LvlFilterHandler(log15.LvlError, log15.StreamHandler(os.Stderr, log15.LogfmtFormat())))
+	}
 	// recovered VM panics are logged by the supervisor with their stack: keep those in the child log
 	common.SupervisorLogger.SetHandler(log15.LvlFilterHandler(log15.LvlError, log15.StreamHandler(os.Stderr, log15.LogfmtFormat())))
 }
